@@ -45,6 +45,10 @@ def setRoute (a : Act) (r : Route) : Act :=
   | .dispatchBase b _ => .dispatchBase b r
   | a => a
 
+def isDispatchTrip : Act → Bool
+  | .dispatchTrip _ _ => true
+  | _ => false
+
 /-- kind tag used by canonical output and the tables -/
 def kind : Act → String
   | .idle _ => "Idle" | .repositioning _ => "Repositioning" | .outOfService => "OutOfService"
@@ -218,7 +222,7 @@ def enter (w : World) (v : VehicleId) : Act → Outcome World
       | none => .rejected
       | some req =>
         if !routeOk route req.pos (some req.dest) then .error
-        else if !(match veh.act with | .dispatchTrip _ _ => true | _ => false) then .error
+        else if !veh.act.isDispatchTrip then .error
         else if !sreq.members.grants veh.members then .error
         else if !routeOk route veh.pos none then .rejected
         else do
